@@ -835,10 +835,14 @@ def c16_generate(rng, tier):
     out = []
     def add(scns, cmp_keys, rel):
         out.extend(tag_cmp(scns, cmp_keys, rel=rel))
-    add(gen_ewd_cases(rng, k, viz_share=0.2), ["arg", "argtotal", "graph"], ["argtotal", "graph"])
-    add(genhist.gen_api(rng, k), ["is_winnable_arg", "q_reduction_arg", "argtotal", "graph"], ["argtotal", "graph"])
-    add(genhist.gen_rank(rng, k // 2, nmax=4, maxdeg=4), ["arg", "argtotal", "graph"], ["argtotal", "graph"])
-    add(genhist.gen_dhar(rng, k), ["after_debt", "after_fire", "argtotal", "graph"], ["argtotal", "graph"])
+    # in-place family: what exactly is left in the caller's divisor is not pinned down (any linearly
+    # equivalent divisor of the same degree, including the untouched input, is allowed): it is
+    # validated (judge: degree; witness phase: linear equivalence by the verified test), not
+    # compared with the state the model's reduction happens to stop in
+    add(gen_ewd_cases(rng, k, viz_share=0.2), ["argtotal", "graph"], None)
+    add(genhist.gen_api(rng, k), ["argtotal", "graph"], None)
+    add(genhist.gen_rank(rng, k // 2, nmax=4, maxdeg=4), ["argtotal", "graph"], None)
+    add(genhist.gen_dhar(rng, k), ["argtotal", "graph"], None)
     add(genhist.gen_lin_equiv(rng, k), ["D1_after", "D2_after", "graph"], None)
     add(genhist.gen_play(rng, k), ["P_after", "graph"], None)
     add(genhist.gen_dhar_strategy(rng, k), ["base_after"], None)
